@@ -502,6 +502,12 @@ def oracle_c03(H, evs, fail):
     for k, o in wire_requests(evs):
         if isinstance(o, dict) and isinstance(o.get("method"), str) and o["method"].startswith("m"):
             wire_at.setdefault(int(o["method"][1:]), k)
+    for idx, (t, m) in enumerate(H.ev):
+        if m.get("what") == "bad-other-kind" and idx < len(evs):
+            got = evs[idx]["C"].get(m["h"])
+            if got and (got[0].startswith(("ok:", "call:", "sub:"))):
+                fail("answer-with-other-id-kind-accepted",
+                     "handle %d (wire id %r) was completed with %s by a response whose id is that number written in the other JSON kind" % (m["h"], m["id"], got))
     died_at = next((k for k, d in enumerate(evs) if d["F"]), None)
     bad_at = first_unjustified_back(H, evs)
     answered_ids = set()
@@ -1511,5 +1517,43 @@ def c18_sid_reuse_histories(rng):
                         rel(6)
                     H.clean = False
                     H.expect_unsub2 = ("unsub%d" % h2, "X")
+                    out.append(H)
+    return out
+
+
+
+def c03_idkind_histories(rng):
+    """a single (non-array) response whose id is the pending request's id written in the OTHER JSON kind ("1" / "01" / "+1" for the
+    number 1, the number 1 for "1"): ids are compared as JSON values (derived PartialEq on Id), so this response bears no
+    pending id -- it must not complete the call / subscribe / unsubscribe that uses that number"""
+    out = []
+    for idstr in (0, 1):
+        for pre in (0, 1, 2):
+            for target in ("call", "sub", "call-err"):
+                for spelling in (("plain", "lead0", "plus") if idstr == 0 else ("plain",)):
+                    H = new_hist(rng, idstr=idstr, qcap=16, bufcap=4, gate=0)
+                    for _ in range(pre):
+                        H.op_call()
+                    if target == "sub":
+                        H.op_sub()
+                        h = H.h
+                        i = H.psubs[h][0]
+                    else:
+                        H.op_call()
+                        h = H.h
+                        i = H.calls[h]
+                    if idstr == 0:
+                        other = {"plain": str(i), "lead0": "0%d" % i, "plus": "+%d" % i}[spelling]
+                    else:
+                        other = i                      # the client sent "i", the server answers with the number i
+                    o = {"jsonrpc": "2.0", "id": other}
+                    if target == "call-err":
+                        o["error"] = {"code": -32000, "message": H.marker(i)}
+                    else:
+                        o["result"] = H.marker(i) if target == "call" else "sid-x"
+                    H.back(o, what="bad-other-kind", h=h, id=i)
+                    H.dead = True
+                    H.op_call()
+                    H.clean = False
                     out.append(H)
     return out
